@@ -137,13 +137,14 @@ class Res:
 
 
 class Stratum:
-    def __init__(self, name, cases, checker, size=None, chunk=16, bounds=None):
+    def __init__(self, name, cases, checker, size=None, chunk=16, bounds=None, fresh_worker=False):
         self.name = name
         self.cases = cases          # iterable of JSON-able dicts
         self.checker = checker      # name in CHECKERS
         self.size = size            # independently computed size (or None)
         self.chunk = chunk
         self.bounds = bounds or {}
+        self.fresh_worker = fresh_worker   # every case in a newly forked worker (history-sensitive checks)
 
 
 # --------------------------------------------------------------------------
@@ -254,8 +255,17 @@ def explore(mod, tier, seed, nproc=None, cap_s=None, log=print):
                         samples.append({'stratum': st.name, 'checker': st.checker,
                                         'case': ch[len(ch) // 2]})
                     yield (st.checker, ch)
-            for packed in pool.imap_unordered(_run_chunk, gen()):
-                total.merge_packed(packed)
+            if st.fresh_worker:
+                fpool = ctx.Pool(nproc, initializer=_init_worker, initargs=(mod.__name__,), maxtasksperchild=1)
+                try:
+                    for packed in fpool.imap_unordered(_run_chunk, gen()):
+                        total.merge_packed(packed)
+                finally:
+                    fpool.terminate()
+                    fpool.join()
+            else:
+                for packed in pool.imap_unordered(_run_chunk, gen()):
+                    total.merge_packed(packed)
             if st.size is not None and st.size != n:
                 raise RuntimeError(
                     'coverage closure failed in stratum %s: enumerated %d, '
